@@ -435,6 +435,9 @@ func runCheck(args []string) int {
 			incompleteAll = false
 		}
 		for why, n := range h.Inconclusive {
+			if n == 0 {
+				continue // informational note, kept in the evidence only
+			}
 			inconcLines = append(inconcLines, fmt.Sprintf("INCONCLUSIVE property=%s harness=%s paths=%d reason=%s", prop, name, n, why))
 		}
 		if h.Complete && h.Asserts == 0 && len(h.Errors) == 0 {
